@@ -102,9 +102,9 @@ impl<R: RawData, O: DataOrder> Iterator for RawDataIterator<'_, R, O> {
 
     fn size_hint(&self) -> (usize, Option<usize>) {
         let pixels_total = if R::BITS_PER_PIXEL >= 8 {
-            self.data.len() * (8 / R::BITS_PER_PIXEL)
+            self.data.len() / (R::BITS_PER_PIXEL / 8)
         } else {
-            self.data.len() * (R::BITS_PER_PIXEL / 8)
+            self.data.len() * (8 / R::BITS_PER_PIXEL)
         };
 
         let size = pixels_total.saturating_sub(self.index);
